@@ -354,7 +354,7 @@ func run(c *mc.Ctx) {
 			return
 		}
 		for _, h := range cf.Histories {
-			if len(h) > 0 && !roots[i].Wait {
+			if len(h) > 0 && !roots[i].Wait && h[0] != "again" {
 				continue
 			}
 			ec := &engineCase{Root: roots[i], Hist: h}
